@@ -103,6 +103,40 @@ pub fn exec(tag: i64, inp: &[i64]) -> Vec<i64> {
             }
             obs
         }
+        133 => {
+            // a poll during which the timeout expires: time advances by 1 ns with every reading
+            // of the clock within that one call.  Layout of the 11 steps: feed x, feed y, tick,
+            // feed v, tick, POLL*, tick, poll, feed w, tick, poll (12 integers each).
+            use helgoboss_midi::verif_hooks::set_auto_advance;
+            let (timeout, which, c, x, y, v, w) = (inp[0], inp[1], inp[2], inp[3], inp[4], inp[5], inp[6]);
+            let (first, second) = if which == 0 { (6, 38) } else { (38, 6) };
+            let st = 176 + c;
+            let mut sc = match region(|| new_scanner(timeout)) {
+                Some(s) => s,
+                None => return vec![PANIC],
+            };
+            let mut obs = Vec::new();
+            let mut clock = Clock(0);
+            let t = timeout as u64;
+            let mut ok = run_ops(&mut sc, &mut clock, &[0, st, 99, x, 0, st, 98, y, 4, 10, 0, 0, 0, st, first, v, 4, (t - 1) as i64, 0, 0], &mut obs);
+            // the straddled poll
+            set_now(clock.0);
+            set_auto_advance(1);
+            let r = region(|| sc.poll(ch(c)));
+            set_auto_advance(0);
+            match r {
+                Some(o) => {
+                    obs.extend_from_slice(&enc_pn(&o));
+                    obs.extend_from_slice(&enc_pn(&None));
+                }
+                None => ok = false,
+            }
+            ok = ok && run_ops(&mut sc, &mut clock, &[4, 101, 0, 0, 3, c, 0, 0, 0, st, second, w, 4, (t + 100) as i64, 0, 0, 3, c, 0, 0], &mut obs);
+            if !ok {
+                return vec![PANIC];
+            }
+            obs
+        }
         132 => {
             let a = &inp[1..];
             let b: Vec<i64> = a.chunks(4).filter(|o| o[0] != 7).flatten().copied().collect();
@@ -214,11 +248,26 @@ fn gen_histories(tag: i64, tier: Tier, r: &mut Rng, em: &mut Emitter, exhaustive
 
 pub fn gen_c14(tier: Tier, seed: u64, em: &mut Emitter) {
     let mut r = Rng::new(seed ^ 0xC14);
+    gen_straddle(&mut r, em);
     gen_histories(140, tier, &mut r, em, true);
+}
+
+/// polls during which the timeout expires (the clock moves between two readings in one call)
+pub fn gen_straddle(r: &mut Rng, em: &mut Emitter) {
+    for &timeout in &[1i64, 2, 5, 1000, 1_000_000, 1_234_567_891] {
+        for which in 0..2 {
+            for _ in 0..4 {
+                let inp = vec![timeout, which, r.below(16) as i64, r.below(128) as i64, r.below(128) as i64,
+                               r.below(128) as i64, r.below(128) as i64];
+                em.emit_k("poll-straddles-the-deadline", 133, inp);
+            }
+        }
+    }
 }
 
 pub fn gen_c13(tier: Tier, seed: u64, em: &mut Emitter) {
     let mut r = Rng::new(seed ^ 0xC13);
+    gen_straddle(&mut r, em);
     gen_histories(130, tier, &mut r, em, true);
     // time independence of feed: same feeds, two clocks, no polls
     let n = if tier == Tier::Thorough { 60_000 } else { 3_000 };
@@ -413,6 +462,7 @@ pub fn exec_120(inp: &[i64]) -> Vec<i64> {
 
 pub fn gen_c12(tier: Tier, seed: u64, em: &mut Emitter) {
     let mut r = Rng::new(seed ^ 0xC12);
+    gen_straddle(&mut r, em);
     // bounded-exhaustive: every conforming action sequence up to a depth, one channel, fixed
     // values, with time steps landing below / at the timeout between any two actions
     for &timeout in &[0i64, 5] {
